@@ -230,6 +230,21 @@ def shard(tier, seed, idx, n):
         if a != b:
             res.violation("nondeterministic-wide-seed", "differs", (s, sd))
         res.case(("wide-seed", s, sd))
+    # the seed defaults to 0 (murmur3_32(data) and RendezvousHash() are what other implementations are compared with)
+    for s_ in ("", "a", "abcd", "node-1:11211-key", "\xff\x00\x80z"):
+        res.count("vectors_checked")
+        try:
+            if orig(s_) != refs.murmur3_bytes(s_.encode("latin-1"), 0):
+                res.violation("default-seed-is-not-0", "murmur3_32(%r) = %#x, MurmurHash3_x86_32 with seed 0 gives %#x"
+                              % (s_, orig(s_), refs.murmur3_bytes(s_.encode("latin-1"), 0)), (s_, 0))
+        except TypeError as e:
+            res.violation("default-seed-is-not-0", "murmur3_32(%r) without a seed raised %r" % (s_, e), (s_, 0))
+    hd = rendezvous.RendezvousHash(nodes=["a:1", "b:2", "c:3"])
+    for j in range(60):
+        if hd.get_node("key-%d" % j) != refs.rendezvous_ref(["a:1", "b:2", "c:3"], "key-%d" % j):
+            res.violation("default-seed-is-not-0", "RendezvousHash() without a seed places key-%d on %r; the rule with seed 0 says %r"
+                          % (j, hd.get_node("key-%d" % j), refs.rendezvous_ref(["a:1", "b:2", "c:3"], "key-%d" % j)), ("key-%d" % j, 0))
+            break
     for sd in wide:
         h1 = rendezvous.RendezvousHash(nodes=["a:1", "b:2", "c:3", "d:4"], seed=sd)
         h2 = rendezvous.RendezvousHash(nodes=["a:1", "b:2", "c:3", "d:4"], seed=sd & 0xFFFFFFFF)
